@@ -450,4 +450,211 @@ theorem coarsen_eq_spec_counts (k : Nat) (hk : 1 ≤ k) (counts : List Nat) (px 
     simp only [hall] at g3 g4
     exact groupSum_eq_of _ _ g1 g4 g3
 
+/-! ## algebra of the aggregate -/
+
+theorem sumAt_map_insertPx (f : Nat → Nat) (p : Px) (l : Pixels) (i j : Nat) :
+    sumAt ((insertPx p l).map (rekey f)) i j = sumAt ((p :: l).map (rekey f)) i j := by
+  induction l with
+  | nil => simp [insertPx]
+  | cons q rest ih =>
+    unfold insertPx
+    split
+    · rfl
+    · split
+      · rename_i _ hk
+        unfold sameKey at hk
+        simp only [List.map_cons, sumAt, rekey, hk.1, hk.2]
+        split <;> omega
+      · simp only [List.map_cons, sumAt] at ih ⊢
+        rw [ih]; omega
+
+theorem hasKey_map_insertPx (f : Nat → Nat) (p : Px) (l : Pixels) (i j : Nat) :
+    hasKey ((insertPx p l).map (rekey f)) i j ↔ hasKey ((p :: l).map (rekey f)) i j := by
+  induction l with
+  | nil => simp [insertPx]
+  | cons q rest ih =>
+    unfold insertPx
+    split
+    · exact Iff.rfl
+    · split
+      · rename_i _ hk
+        unfold sameKey at hk
+        simp only [List.map_cons, hasKey_cons, rekey, hk.1, hk.2]
+        constructor
+        · rintro (h | h)
+          · exact Or.inl h
+          · exact Or.inr (Or.inr h)
+        · rintro (h | h | h)
+          · exact Or.inl h
+          · exact Or.inl h
+          · exact Or.inr h
+      · simp only [List.map_cons, hasKey_cons] at ih ⊢
+        rw [ih]
+        constructor
+        · rintro (h | h | h)
+          · exact Or.inr (Or.inl h)
+          · exact Or.inl h
+          · exact Or.inr (Or.inr h)
+        · rintro (h | h | h)
+          · exact Or.inr (Or.inl h)
+          · exact Or.inl h
+          · exact Or.inr (Or.inr h)
+
+theorem sumAt_map_groupSum (f : Nat → Nat) (a : Pixels) (i j : Nat) :
+    sumAt ((groupSum a).map (rekey f)) i j = sumAt (a.map (rekey f)) i j := by
+  induction a with
+  | nil => rfl
+  | cons p rest ih =>
+    have : groupSum (p :: rest) = insertPx p (groupSum rest) := rfl
+    rw [this, sumAt_map_insertPx]
+    simp only [List.map_cons, sumAt, ih]
+
+theorem hasKey_map_groupSum (f : Nat → Nat) (a : Pixels) (i j : Nat) :
+    hasKey ((groupSum a).map (rekey f)) i j ↔ hasKey (a.map (rekey f)) i j := by
+  induction a with
+  | nil => exact Iff.rfl
+  | cons p rest ih =>
+    have : groupSum (p :: rest) = insertPx p (groupSum rest) := rfl
+    rw [this, hasKey_map_insertPx]
+    simp only [List.map_cons, hasKey_cons, ih]
+
+/-- G3: re-keying an aggregate and aggregating again is aggregating the re-keyed records -/
+theorem groupSum_map_groupSum (f : Nat → Nat) (a : Pixels) :
+    groupSum ((groupSum a).map (rekey f)) = groupSum (a.map (rekey f)) :=
+  groupSum_eq_of _ _ (groupSum_sorted _)
+    (fun i j => by rw [hasKey_groupSum, hasKey_map_groupSum])
+    (fun i j => by rw [sumAt_groupSum, sumAt_map_groupSum])
+
+theorem total_map_rekey (f : Nat → Nat) (l : Pixels) : total (l.map (rekey f)) = total l := by
+  unfold total
+  rw [List.map_map]
+  rfl
+
+/-- **coarsen_total**: the total of the value column is preserved -/
+theorem coarsen_total (k : Nat) (gs : List (List Bin)) (px : Pixels) :
+    total (coarsenSpecG k gs px) = total px := by
+  unfold coarsenSpecG
+  rw [C07.total_groupSum, total_map_rekey]
+
+/-- every stored value of the result is the sum of exactly the old pixels that fall into it -/
+theorem coarsen_pointwise (k : Nat) (gs : List (List Bin)) (px : Pixels) (i j : Nat) :
+    sumAt (coarsenSpecG k gs px) i j = sumAt (px.map (rekey (cmapG k gs))) i j ∧
+    (hasKey (coarsenSpecG k gs px) i j ↔ ∃ p ∈ px, cmapG k gs p.i = i ∧ cmapG k gs p.j = j) := by
+  unfold coarsenSpecG
+  refine ⟨sumAt_groupSum _ i j, ?_⟩
+  rw [hasKey_groupSum]
+  unfold hasKey
+  constructor
+  · rintro ⟨q, hq, h⟩
+    obtain ⟨p, hp, rfl⟩ := List.mem_map.mp hq
+    exact ⟨p, hp, h⟩
+  · rintro ⟨p, hp, h⟩
+    exact ⟨rekey (cmapG k gs) p, List.mem_map_of_mem hp, h⟩
+
+/-- the result is sorted and duplicate-free (`create` input contract, see C02) -/
+theorem coarsen_sorted (k : Nat) (gs : List (List Bin)) (px : Pixels) :
+    StrictSorted (coarsenSpecG k gs px) := groupSum_sorted _
+
+/-- an upper-triangular source stays upper triangular (monotone re-keying) -/
+theorem coarsen_triu (k : Nat) (hk : 1 ≤ k) (gs : List (List Bin)) (px : Pixels) (ht : Triu px) :
+    Triu (coarsenSpecG k gs px) := by
+  intro p hp
+  obtain ⟨q, hq, hqi, hqj⟩ := C07.mem_groupSum_row _ p hp
+  obtain ⟨q0, hq0, rfl⟩ := List.mem_map.mp hq
+  simp only [rekey] at hqi hqj
+  have := cmap_monotone k hk gs q0.i q0.j (ht q0 hq0)
+  omega
+
+theorem coarsenGroupSpec_length (k : Nat) (g : List Bin) : (coarsenGroupSpec k g).length = ceilDiv g.length k := by
+  simp [coarsenGroupSpec]
+
+theorem coarsenGroupsSpec_counts (k : Nat) (gs : List (List Bin)) :
+    (coarsenGroupsSpec k gs).map List.length = (gs.map List.length).map (fun n => ceilDiv n k) := by
+  simp [coarsenGroupsSpec, List.map_map, Function.comp_def, coarsenGroupSpec_length]
+
+/-- bin ids of the result lie inside the new table -/
+theorem coarsen_inRange (k : Nat) (hk : 1 ≤ k) (gs : List (List Bin)) (px : Pixels)
+    (hr : InRange (gs.map List.length).sum px) :
+    InRange ((coarsenGroupsSpec k gs).map List.length).sum (coarsenSpecG k gs px) := by
+  intro p hp
+  obtain ⟨q, hq, hqi, hqj⟩ := C07.mem_groupSum_row _ p hp
+  obtain ⟨q0, hq0, rfl⟩ := List.mem_map.mp hq
+  simp only [rekey] at hqi hqj
+  rw [coarsenGroupsSpec_counts]
+  have h1 := cmapCounts_lt k hk _ q0.i (hr q0 hq0).1
+  have h2 := cmapCounts_lt k hk _ q0.j (hr q0 hq0).2
+  unfold cmapG at hqi hqj
+  omega
+
+/-! ## composition and commutation with merging -/
+
+theorem cmapCounts_compose (k1 k2 : Nat) (h1 : 1 ≤ k1) (h2 : 1 ≤ k2) :
+    ∀ (counts : List Nat) (x : Nat),
+      cmapCounts k2 (counts.map (fun n => ceilDiv n k1)) (cmapCounts k1 counts x)
+        = cmapCounts (k1 * k2) counts x := by
+  intro counts
+  induction counts with
+  | nil => intro x; rfl
+  | cons n rest ih =>
+    intro x
+    simp only [cmapCounts, List.map_cons]
+    by_cases hx : x < n
+    · have := div_lt_ceilDiv h1 hx
+      simp only [hx, this, if_true, Nat.div_div_eq_div_mul]
+    · have hn : ¬ ceilDiv n k1 + cmapCounts k1 rest (x - n) < ceilDiv n k1 := by omega
+      simp only [hx, if_false, hn, Nat.add_sub_cancel_left, ih, ceilDiv_ceilDiv h1 h2]
+
+/-- **coarsen_compose** (pixel table): coarsening by `k₁` and then by `k₂` — over the coarsened table —
+is coarsening by `k₁·k₂`, for EVERY table (fixed or variable width) and every `k₁, k₂ ≥ 1`:
+per chromosome `(x / k₁) / k₂ = x / (k₁·k₂)` and `⌈⌈n/k₁⌉/k₂⌉ = ⌈n/(k₁·k₂)⌉` -/
+theorem coarsen_compose_pixels (k1 k2 : Nat) (h1 : 1 ≤ k1) (h2 : 1 ≤ k2) (gs : List (List Bin)) (px : Pixels) :
+    coarsenSpecG k2 (coarsenGroupsSpec k1 gs) (coarsenSpecG k1 gs px) = coarsenSpecG (k1 * k2) gs px := by
+  unfold coarsenSpecG
+  rw [groupSum_map_groupSum, List.map_map]
+  congr 1
+  apply List.map_congr_left
+  intro p _
+  simp only [Function.comp, rekey, cmapG, coarsenGroupsSpec_counts, cmapCounts_compose k1 k2 h1 h2]
+
+/-- **coarsen_merge_commute**: coarsening the merge of several coolers over one table equals merging
+their coarsenings -/
+theorem coarsen_merge_commute (k : Nat) (gs : List (List Bin)) (inputs : List Pixels) :
+    coarsenSpecG k gs (mergeSpec inputs) = mergeSpec (inputs.map (coarsenSpecG k gs)) := by
+  unfold coarsenSpecG mergeSpec
+  rw [groupSum_map_groupSum]
+  have : inputs.map (fun px => groupSum (px.map (rekey (cmapG k gs))))
+      = (inputs.map (List.map (rekey (cmapG k gs)))).map groupSum := by
+    rw [List.map_map]; rfl
+  rw [this, groupSum_flatten_groupSum, List.map_flatten]
+
+/-! ## independence of the schedule -/
+
+theorem batchesAux_flatten {α : Type} (b : Nat) (hb : 1 ≤ b) :
+    ∀ (fuel : Nat) (l : List α), l.length ≤ fuel → (batchesAux b fuel l).flatten = l := by
+  intro fuel
+  induction fuel with
+  | zero => intro l hl; have : l = [] := List.eq_nil_of_length_eq_zero (by omega)
+            subst this; rfl
+  | succ fuel ih =>
+    intro l hl
+    unfold batchesAux
+    split
+    · rename_i h; simp [h]
+    · rw [List.flatten_cons, ih (l.drop b) (by simp; omega), List.take_append_drop]
+
+theorem batches_flatten {α : Type} (b : Nat) (hb : 1 ≤ b) (l : List α) : (batches b l).flatten = l :=
+  batchesAux_flatten b hb l.length l (Nat.le_refl _)
+
+/-- **coarsen_map_independent**: with ANY map functor that returns its results in input order (the
+`Pool.map` primitive) and any batch size `≥ 1` (= number of workers), `__iter__` yields the sequential
+stream -/
+theorem coarsen_map_independent
+    (mapf : ((Nat × Nat) → Pixels) → List (Nat × Nat) → List Pixels)
+    (hmap : ∀ f l, mapf f l = l.map f) (b : Nat) (hb : 1 ≤ b) (rb : Nat → Nat) (px : Pixels) (es : List Nat) :
+    coarsenIter mapf b rb px es = coarsenStream rb px es := by
+  unfold coarsenIter coarsenStream
+  simp only [hmap]
+  conv => rhs; rw [← batches_flatten b hb (spansOf es)]
+  rw [List.map_flatten, List.flatMap_def]
+
 end Cooler.C08
